@@ -168,4 +168,155 @@ theorem esc_sep_inj : ∀ (a b : List UInt8) (prev : Option UInt8) (R R' : List 
     obtain ⟨e2, hR⟩ := esc_sep_inj r r' (some c) R R' (okFrom_cons ha).2 (okFrom_cons hb).2 hr
     exact ⟨by rw [e2], hR⟩
 
+/-! ## the module part (`escModL`): a leading byte the wrapper escapes -/
+
+theorem leads_digit {c : UInt8} (h : leads c = true) : 48 ≤ c.toNat ∧ c.toNat ≤ 57 := by
+  simp [leads, moduleLeadEscape, leadHolds] at h <;> exact h
+
+theorem piece_prev_irrel (c c' : UInt8) (hc : c.toNat ≠ 95) : piece (some c) c' = piece none c' := by
+  unfold piece
+  by_cases hu : c'.toNat = underscore
+  · have h1 : ¬ (some c = some c') := by
+      intro e; injection e with e; subst e; exact hc hu
+    simp [hu, h1]
+  · simp [hu]
+
+theorem escL_prev_irrel (c : UInt8) (hc : c.toNat ≠ 95) (r : List UInt8) : escL (some c) r = escL none r := by
+  cases r with
+  | nil => rfl
+  | cons c' r' => simp only [escL, piece_prev_irrel c c' hc]
+
+theorem okFrom_prev_irrel (c : UInt8) (hc : c.toNat ≠ 95) (r : List UInt8) : okFrom (some c) r = okFrom none r := by
+  have h95 : c ≠ 95 := fun e => hc (by rw [e]; rfl)
+  cases r with
+  | nil =>
+    have e1 : (some c != some (95 : UInt8)) = true := by simp [h95]
+    simp [okFrom, e1]
+  | cons c' r' => simp [okFrom, h95]
+
+/-- esc(module part) ++ separator ++ rest determines the module name and the rest, for module names of the accepted form -/
+theorem escMod_sep_inj (a b : List UInt8) (R R' : List Nat) (ha : okFrom none a = true) (hb : okFrom none b = true)
+    (h : escModL a ++ (separator ++ R) = escModL b ++ (separator ++ R')) : a = b ∧ R = R' := by
+  have sepHead : ∀ X : List Nat, separator ++ X = 95 :: 95 :: X := fun _ => rfl
+  cases a with
+  | nil =>
+    cases b with
+    | nil =>
+      simp only [escModL, List.nil_append] at h
+      exact ⟨rfl, List.append_cancel_left h⟩
+    | cons c r =>
+      simp only [escModL, List.nil_append] at h
+      by_cases hl : leads c = true
+      · simp [hl, sepHead, escapeChar] at h
+      · simp only [hl] at h
+        exact absurd h (sep_conflict none c r R R' hb ha)
+  | cons c r =>
+    cases b with
+    | nil =>
+      simp only [escModL, List.nil_append] at h
+      by_cases hl : leads c = true
+      · simp [hl, sepHead, escapeChar] at h
+      · simp only [hl] at h
+        exact absurd h.symm (sep_conflict none c r R' R ha hb)
+    | cons c' r' =>
+      simp only [escModL] at h
+      by_cases hl : leads c = true <;> by_cases hl' : leads c' = true
+      · -- both leading bytes are escaped by the wrapper
+        simp only [hl, hl', if_true, List.cons_append, List.append_assoc, List.cons.injEq, true_and] at h
+        have h2 : hexL c = hexL c' ∧ escL none r ++ (separator ++ R) = escL none r' ++ (separator ++ R') := by
+          unfold hexL at h ⊢
+          simp at h
+          exact ⟨by simp [h.1, h.2.1], h.2.2⟩
+        have e := hexL_inj h2.1
+        subst e
+        have hc95 : c.toNat ≠ 95 := by have := leads_digit hl; omega
+        have oa : okFrom none r = true := by rw [← okFrom_prev_irrel c hc95]; exact (okFrom_cons ha).2
+        have ob : okFrom none r' = true := by rw [← okFrom_prev_irrel c hc95]; exact (okFrom_cons hb).2
+        obtain ⟨e2, hR⟩ := esc_sep_inj r r' none R R' oa ob h2.2
+        exact ⟨by rw [e2], hR⟩
+      · -- only the left one: X hh … against an ordinary first piece
+        have hl'f : leads c' = false := by simpa using hl'
+        simp only [hl, hl'f, if_true, escL, List.cons_append, List.append_assoc] at h
+        rcases piece_cases none c' with ⟨_, ⟨hp, _⟩ | ⟨hp, _⟩⟩ | ⟨_, hx, _, hp⟩ | ⟨_, hk, hp⟩
+        · rw [hp] at h; simp [escapeChar] at h
+        · rw [hp] at h; simp [escapeChar] at h
+        · rw [hp] at h; simp [escapeChar] at h; omega
+        · rw [hp] at h
+          have h2 : hexL c = hexL c' := by
+            unfold hexL at h ⊢
+            simp [escapeChar] at h
+            simp [h.1, h.2.1]
+          have e := hexL_inj h2
+          subst e
+          rw [hl] at hl'f; exact absurd hl'f (by simp)
+      · have hlf : leads c = false := by simpa using hl
+        simp only [hlf, hl', if_true, escL, List.cons_append, List.append_assoc] at h
+        rcases piece_cases none c with ⟨_, ⟨hp, _⟩ | ⟨hp, _⟩⟩ | ⟨_, hx, _, hp⟩ | ⟨_, hk, hp⟩
+        · rw [hp] at h; simp [escapeChar] at h
+        · rw [hp] at h; simp [escapeChar] at h
+        · rw [hp] at h; simp [escapeChar] at h; omega
+        · rw [hp] at h
+          have h2 : hexL c = hexL c' := by
+            unfold hexL at h ⊢
+            simp [escapeChar] at h
+            simp [h.1, h.2.1]
+          have e := hexL_inj h2
+          subst e
+          rw [hl'] at hlf; exact absurd hlf (by simp)
+      · have hlf : leads c = false := by simpa using hl
+        have hl'f : leads c' = false := by simpa using hl'
+        simp only [hlf, hl'f] at h
+        exact esc_sep_inj (c :: r) (c' :: r') none R R' ha hb h
+
+/-! ## the symbol is a C identifier -/
+
+theorem hexU_idChar (n : Nat) (h : n < 16) : isIdChar (hexU n) = true := by
+  unfold hexU isIdChar isIdStart
+  split <;> simp <;> omega
+
+theorem alnum_idChar {c : UInt8} (h : isAlnum c = true) : isIdChar c.toNat = true := by
+  simp [isAlnum] at h
+  simp [isIdChar, isIdStart]
+  omega
+
+theorem piece_idChars (prev : Option UInt8) (c : UInt8) : ∀ x ∈ piece prev c, isIdChar x = true := by
+  intro x hx
+  have := c.toNat_lt
+  rcases piece_cases prev c with ⟨_, ⟨h, _⟩ | ⟨h, _⟩⟩ | ⟨_, _, hk, h⟩ | ⟨_, _, h⟩ <;> rw [h] at hx
+  · simp at hx; subst hx; decide
+  · simp at hx; subst hx; decide
+  · simp at hx; subst hx; exact alnum_idChar (keeps_alnum hk)
+  · simp [hexL] at hx
+    rcases hx with rfl | rfl | rfl
+    · decide
+    · exact hexU_idChar _ (by omega)
+    · exact hexU_idChar _ (by omega)
+
+theorem escL_idChars : ∀ (bs : List UInt8) (prev : Option UInt8), ∀ x ∈ escL prev bs, isIdChar x = true
+  | [], _, x, hx => by simp [escL] at hx
+  | c :: rest, prev, x, hx => by
+    simp only [escL, List.mem_append] at hx
+    rcases hx with hx | hx
+    · exact piece_idChars prev c x hx
+    · exact escL_idChars rest (some c) x hx
+
+theorem escModL_idChars (m : List UInt8) : ∀ x ∈ escModL m, isIdChar x = true := by
+  cases m with
+  | nil => intro x hx; simp [escModL] at hx
+  | cons c rest =>
+    intro x hx
+    have := c.toNat_lt
+    simp only [escModL] at hx
+    by_cases hl : leads c = true
+    · simp only [hl, if_true, List.cons_append, List.mem_cons, List.mem_append] at hx
+      rcases hx with rfl | hx | hx
+      · decide
+      · simp [hexL] at hx
+        rcases hx with rfl | rfl
+        · exact hexU_idChar _ (by omega)
+        · exact hexU_idChar _ (by omega)
+      · exact escL_idChars rest none x hx
+    · simp only [hl] at hx
+      exact escL_idChars (c :: rest) none x hx
+
 end W2c2Verif.Lemmas.Mangle
